@@ -31,6 +31,7 @@ func runAppImpl(t *testing.T, dir string, c *streamCase) streamResult {
 	}
 	defer ln.Close()
 	var res streamResult
+	var heldBlocks [][]byte
 	done := make(chan struct{})
 	f := appface.NewStreamFace("unix", sock, true)
 	f.SetCallback(func(r enc.ParseReader) error {
@@ -39,7 +40,9 @@ func runAppImpl(t *testing.T, dir string, c *streamCase) streamResult {
 			res.frames = append(res.frames, "readerr")
 			return nil
 		}
-		res.frames = append(res.frames, frameSig(w.Join()))
+		// the engine keeps what it is handed (PIT, content store, application callbacks): hold the slice itself, not a copy,
+		// and look at it only after the whole stream has been received
+		heldBlocks = append(heldBlocks, w.Join())
 		return nil
 	}, func(e error) error {
 		switch e {
@@ -85,6 +88,9 @@ func runAppImpl(t *testing.T, dir string, c *streamCase) streamResult {
 	}
 	for i := 0; i < 2000 && f.IsRunning(); i++ {
 		time.Sleep(time.Millisecond)
+	}
+	for _, b := range heldBlocks {
+		res.frames = append(res.frames, frameSig(b))
 	}
 	return res
 }
